@@ -1,0 +1,6 @@
+//go:build !verif
+// +build !verif
+
+package storage
+
+func verifPause(p *partition, point string) {}
